@@ -268,7 +268,82 @@ def streams(ctx):
         ctx.res.notes.append("include/calculator.hpp has no overflow detection (finding F2 unrepaired): stream toiwrap compares the "
                              "binary with the wrap-around model; strings where that model executes an undefined operation (TRAP) are skipped")
     cli_check(ctx, g, valid)
+    cli64_check(ctx, g)
     return sts
+
+
+CLI64_PI = ["--legendre", "--meissel", "--lehmer", "--lmo", "--lmo1", "--lmo2", "--lmo3", "--lmo4", "--lmo5", "--primesieve",
+            "--gourdon-64", "--deleglise-rivat-64"]
+
+
+def cli64_check(ctx, g):
+    """`primecount <x> [<a>] --<64-bit option>` (the real executable) against the Lean op `cli64`: the options that call a
+    64-bit function narrow the evaluated number with `to_int64` (src/app/main.cpp). Values are placed on both sides of
+    -2^64, -2^63, 2^63, 2^64 (where an unchecked narrowing wraps to a SMALL number: finding F8) and among small numbers."""
+    import subprocess
+    rng = ctx.rng
+    exe = os.path.join(core.ensure_build("rel"), "primecount")
+    vals = []
+    for base in (2 ** 63, 2 ** 64, 2 ** 65, 2 ** 100, 2 ** 126):
+        for d in (-100, -1, 0, 1, 25, 100, 1000, rng.randint(2, 5000)):
+            vals += [base + d, -(base + d), -(base - d)]
+    vals += [0, 1, 2, 100, 1000, 5000, 99999, -1, -100, 2 ** 63 - 1, -(2 ** 63), -(2 ** 63) - 1, 2 ** 127 - 1, -(2 ** 127) + 1]
+    vals += [rng.randint(0, 3000) for _ in range(10 if ctx.quick else 100)]
+
+    def spell(v):
+        k = rng.random()
+        if v >= 0:
+            return str(v) if k < 0.6 else ("%d+%d" % (v - 7, 7) if v >= 7 else "0+%d" % v)
+        a = -v
+        return ("0-%d" % a) if k < 0.5 else ("(0-%d)" % a if k < 0.75 else "1-%d" % (a + 1))
+
+    cases = []     # (kind, [args], option)
+    for v in dict.fromkeys(vals):
+        sx = spell(v)
+        opts = CLI64_PI if abs(v) > 2 ** 62 else [rng.choice(CLI64_PI)]
+        for o in ([rng.choice(opts)] if ctx.quick and abs(v) <= 2 ** 62 else (opts[:4] if ctx.quick else opts)):
+            cases.append(("pi", [sx], o))
+        cases.append(("nth", [sx], "--nth-prime"))
+        cases.append(("phi", [sx, str(rng.randint(0, 6))], "--phi"))
+        cases.append(("phi", [str(rng.randint(1, 3000)), sx], "--phi"))
+    ops = ["cli64 %s %s" % (k, " ".join(hexs(a.encode()) for a in args)) for k, args, _ in cases]
+    _, model, _, _ = core.run_model("\n".join(ops) + "\n")
+    if len(model) != len(ops):
+        emit_violation(ctx, "internal", "cli64: model answered %d of %d ops" % (len(model), len(ops)),
+                       dict(failing_input=None, broken="cli64 model op"))
+        return
+    classes, dis, ran, hangs = {}, [], 0, 0
+    for (k, args, o), m in zip(cases, model):
+        if m in ("BIG", "OPTION") or m.startswith("ERR"):
+            classes[m] = classes.get(m, 0) + 1
+            continue
+        if hangs >= 3 or len(dis) >= 40:
+            break       # enough evidence; a wrapped value usually starts a computation that never ends
+        ran += 1
+        try:
+            p = subprocess.run([exe] + args + [o], capture_output=True, timeout=30, env=dict(os.environ, OMP_NUM_THREADS="2"))
+            got = "exit=%d" % p.returncode + (" out=" + p.stdout.decode("latin-1").strip() if p.returncode == 0 else "")
+        except subprocess.TimeoutExpired:
+            got = "HANG"
+            hangs += 1
+        c = k + ":" + got.split(" ")[0]
+        classes[c] = classes.get(c, 0) + 1
+        if got != m:
+            dis.append((k, args, o, got, m))
+    ctx.res.evaluations += ran
+    ctx.res.stream_stats["cli64"] = dict(ops=len(cases), executed=ran, classes=classes, disagreements=len(dis))
+    ctx.res.samples.append({"stream": "cli64", "op": "primecount %s %s" % (" ".join(cases[0][1]), cases[0][2]), "model": model[0]})
+    if dis:
+        dis.sort(key=lambda t: (sum(len(a) for a in t[1]), t[1]))
+        k, args, o, got, m = dis[0]
+        cmd = "primecount %s %s" % (" ".join("'%s'" % a for a in args), o)
+        emit_violation(ctx, "correspondence",
+                       "cli64: %d command line(s): `%s` gives [%s]; the exact value of the argument (theorem cli64_exact: the number "
+                       "handed to a 64-bit option is the value of the expression, everything outside int64 is rejected) requires [%s]" % (
+                           len(dis), cmd, got, m),
+                       dict(failing_input=cmd, expected=m, observed=got, stream="cli64", count=len(dis), key="cli64:" + cmd,
+                            more=["primecount %s %s -> %s (expected %s)" % (" ".join(a), oo, gg, mm) for _, a, oo, gg, mm in dis[1:8]],
+                            replay_hint=cmd + "; echo $?"))
 
 
 def cli_check(ctx, g, valid):
